@@ -137,5 +137,229 @@ func ruleNoPositionInsideOpenTxn(w *core.World, r *core.Report, c *senderCtx) {
 }
 
 
-var _ = strings.HasSuffix
-var _ types.Type
+// ---------------------------------------------------------------- R07.9 the database a checkpoint is accounted to is the database of this batch
+
+// ruleCheckpointDbFromBatch: the run id (and version) of a checkpoint record is written once per database; a
+// per-database set says which databases hold it already, and only the offset is written into those (R07.7). The
+// HSETs are executed in whatever database the connection is in when they arrive, and the one thing the batch sender
+// knows about that is the batch itself: the last stream command queued before them leaves the connection in its
+// database. So the key of every look-up in (and every addition to) that set must be the database of the last
+// element of the command queue, read in the same call. Anything remembered from an earlier batch is not that: the
+// keep-alive item carries no database (its field reads 0), so after a keep-alive a remembered "current database"
+// is 0 whatever database the connection is in, the set answers for the wrong database, and the offset goes without
+// its run id into a database that never received it - GetCheckpoint then reads the newest position as one of an
+// unknown run (seed C07-13).
+func ruleCheckpointDbFromBatch(w *core.World, r *core.Report, c *senderCtx) {
+	const cons = "sendCmdsBatch/checkpoint-database-from-batch"
+	isKeyCall := func(v ssa.Value, method string) bool {
+		call, ok := core.Unwrap(v).(*ssa.Call)
+		return ok && strings.HasSuffix(core.ResolveCall(call).Name, "CheckpointInfo)."+method)
+	}
+	putsOffset := func(s core.Site) bool {
+		if s.Method != "Put" {
+			return false
+		}
+		if name, ok := core.CmdName(s); !ok || name != "hset" {
+			return false
+		}
+		args, ok := core.CmdArgs(s)
+		if !ok {
+			return false
+		}
+		for _, a := range args {
+			if isKeyCall(a, "OffsetKey") {
+				return true
+			}
+		}
+		return false
+	}
+	intKeyedSet := func(t types.Type) bool {
+		m, ok := t.Underlying().(*types.Map)
+		if !ok {
+			return false
+		}
+		b, ok := m.Key().Underlying().(*types.Basic)
+		return ok && b.Info()&types.IsInteger != 0
+	}
+	// the per-database sets: the maps a comma-ok look-up of the batch sender consults
+	sets := map[*ssa.Alloc]bool{}
+	setOf := func(m ssa.Value) *ssa.Alloc {
+		ld, ok := core.Unwrap(m).(*ssa.UnOp)
+		if !ok || ld.Op != token.MUL {
+			return nil
+		}
+		return core.Cell(ld.X)
+	}
+	bad, undecided := "", ""
+	var badPos, undPos token.Pos
+	n := 0
+	okEnum := core.EnumPaths(c.once.Blocks[0], 0, 200000, func(p *core.Path) {
+		if bad != "" {
+			return
+		}
+		stores := false
+		for _, s := range pathSites(p) {
+			if putsOffset(s) {
+				stores = true
+			}
+		}
+		if !stores {
+			return
+		}
+		for _, in := range p.Instrs {
+			if lk, ok := in.(*ssa.Lookup); ok && lk.CommaOk && intKeyedSet(lk.X.Type()) {
+				if a := setOf(lk.X); a != nil {
+					sets[a] = true
+				}
+			}
+		}
+		for _, in := range p.Instrs {
+			var key ssa.Value
+			what := ""
+			switch x := in.(type) {
+			case *ssa.Lookup:
+				if x.CommaOk && intKeyedSet(x.X.Type()) && sets[setOf(x.X)] {
+					key, what = x.Index, "asked"
+				}
+			case *ssa.MapUpdate:
+				if intKeyedSet(x.Map.Type()) && sets[setOf(x.Map)] {
+					key, what = x.Key, "told"
+				}
+			}
+			if key == nil {
+				continue
+			}
+			n++
+			switch verdict, detail := c.queueTailDb(p, key, in); verdict {
+			case "tail":
+			case "undecided":
+				if undecided == "" {
+					undecided, undPos = "the set of databases that hold the run id is "+what+" about a database the rule cannot follow to the last element of the command queue ("+detail+"); accepted: the Db field of queue[len(queue)-1], read directly or through a local copy of that element", in.Pos()
+				}
+			default:
+				bad, badPos = "the set of databases that already hold this run's id is "+what+" about a database that is not the one of the last command queued in this batch ("+detail+"). The checkpoint fields are executed in the database the connection is in, and the batch sender only knows that database from the commands it queues before them; a database remembered from an earlier batch is not it (the keep-alive item carries none, its database reads 0 whatever the connection is in). The set then answers for the wrong database, the offset is written without the run id into a database that never received it, and a restart reads the newest position as 'offset N of an unknown run': full resynchronisation although a good position was stored. With nothing queued the run id must go with the offset", in.Pos()
+			}
+		}
+	})
+	if !okEnum {
+		r.Undecided(cons, c.once.Pos(), "too many paths through the batch sender")
+		return
+	}
+	switch {
+	case bad != "":
+		r.Fail(cons, badPos, "%s", bad)
+	case undecided != "":
+		r.Undecided(cons, undPos, "%s", undecided)
+	case n == 0:
+		r.Fail(cons, c.once.Pos(), "no path of the batch sender that stores an offset consults a per-database set (R07.7 demands the run id with every offset in that case; the rule has nothing to check)")
+	default:
+		r.OK(cons, c.once.Pos(), "%d look-up(s)/addition(s) on offset-storing paths", n)
+	}
+}
+
+// queueTailDb classifies the value a per-database set is keyed with on a path: "tail" when it is the database
+// field of the last element of the command queue (read from the queue in this call: directly, or through a local
+// copy of the element), "undecided" when it is the database field of a queue element whose index the rule cannot
+// read as len(queue)-1, "other" otherwise (detail says what it is).
+func (c *senderCtx) queueTailDb(p *core.Path, key ssa.Value, at ssa.Instruction) (verdict, detail string) {
+	k := core.Unwrap(p.Resolve(key))
+	isDbField := func(v ssa.Value) bool {
+		switch x := v.(type) {
+		case *ssa.FieldAddr:
+			return core.FieldName(x) == "Db" && strings.HasSuffix(core.TypeName(x.X.Type()), "syncer.cmdExecution")
+		case *ssa.Field:
+			return core.FieldName(x) == "Db" && strings.HasSuffix(core.TypeName(x.X.Type()), "syncer.cmdExecution")
+		}
+		return false
+	}
+	isQueueLoad := func(v ssa.Value) bool {
+		ld, ok := core.Unwrap(p.Resolve(v)).(*ssa.UnOp)
+		return ok && ld.Op == token.MUL && core.Cell(ld.X) == c.queue
+	}
+	isQueueLen := func(v ssa.Value) bool {
+		call, ok := core.Unwrap(p.Resolve(v)).(*ssa.Call)
+		if !ok {
+			return false
+		}
+		b, ok := call.Call.Value.(*ssa.Builtin)
+		return ok && b.Name() == "len" && len(call.Call.Args) == 1 && isQueueLoad(call.Call.Args[0])
+	}
+	// elem: the struct value / address denotes queue[idx]
+	var elemIndex func(v ssa.Value, depth int) (idx ssa.Value, ok bool)
+	elemIndex = func(v ssa.Value, depth int) (ssa.Value, bool) {
+		if depth > 4 {
+			return nil, false
+		}
+		switch x := v.(type) {
+		case *ssa.IndexAddr:
+			if isQueueLoad(x.X) {
+				return x.Index, true
+			}
+		case *ssa.UnOp: // a loaded element
+			if x.Op == token.MUL {
+				if r := p.Resolve(x); r != ssa.Value(x) {
+					return elemIndex(core.Unwrap(r), depth+1)
+				}
+				return elemIndex(x.X, depth+1)
+			}
+		case *ssa.Alloc: // a local copy: the whole-element store the path made last before the use
+			var last ssa.Value
+			for _, in := range p.Instrs {
+				if in == at {
+					break
+				}
+				if st, isSt := in.(*ssa.Store); isSt && st.Addr == ssa.Value(x) {
+					last = st.Val
+				}
+			}
+			if last != nil {
+				return elemIndex(core.Unwrap(p.Resolve(last)), depth+1)
+			}
+		}
+		return nil, false
+	}
+	var base ssa.Value
+	switch x := k.(type) {
+	case *ssa.UnOp:
+		if fa, ok := x.X.(*ssa.FieldAddr); ok && x.Op == token.MUL && isDbField(fa) {
+			base = fa.X
+		}
+	case *ssa.Field:
+		if isDbField(x) {
+			base = core.Unwrap(p.Resolve(x.X))
+		}
+	}
+	if base != nil {
+		if idx, ok := elemIndex(base, 0); ok {
+			if sub, isSub := core.Unwrap(p.Resolve(idx)).(*ssa.BinOp); isSub && sub.Op == token.SUB && isConstInt(1)(sub.Y) && isQueueLen(sub.X) {
+				return "tail", ""
+			}
+			return "undecided", "the database of a queued command, but not visibly the last one"
+		}
+	}
+	// what else it is, for the message
+	switch x := k.(type) {
+	case *ssa.Const:
+		return "other", "a constant"
+	case *ssa.UnOp:
+		if x.Op == token.MUL {
+			if cell := core.Cell(x.X); cell != nil && cell != c.queue {
+				outside := 0
+				for _, st := range core.CellStores(cell) {
+					if st.Parent() != c.once {
+						outside++
+					}
+				}
+				if outside > 0 || cell.Parent() != c.once {
+					return "other", "a variable that outlives the batch: it is assigned outside the batch sender, i.e. remembered from an earlier batch"
+				}
+			}
+		}
+	case *ssa.Parameter:
+		return "undecided", "a parameter of the batch sender"
+	}
+	if base != nil {
+		return "undecided", "the Db field of a value the rule cannot follow to the command queue"
+	}
+	return "undecided", "a value of unknown origin: " + k.String()
+}
